@@ -36,6 +36,13 @@ func VerifHarness_C19_CorruptionReported() {
 
 	r := &Reader{r: &hBlocks{blocks: [][]byte{next}}, logNum: logNum, blockNum: 0, begin: pos, end: pos, n: blockSize, invalidOffset: math.MaxUint64}
 	copy(r.buf[:], blk)
+	// The damaged chunk is the one at pos: paths on which nextChunk first skips over intact
+	// chunks or a zeroed block tail (and so meets damage further on) are cut - the same step
+	// from the later position is another instance of this harness.
+	sym.LoopBound("nextChunk", 0, nil)
+	// block0 is arbitrary, so the checksum of the chunk at pos is unconstrained whatever its
+	// length: lengths above 2 share one over-approximating term instead of one case each
+	sym.CrcBound(2)
 	rec, err := r.Next()
 	if err == nil {
 		_ = rec // a chunk was accepted (its validity is VerifHarness_C19_AcceptedChunkIsValid's subject)
@@ -87,6 +94,9 @@ func VerifHarness_C19_AcceptedChunkIsValid() {
 	sym.LoopBound("nextChunk", 0, func() {
 		sym.Assert(0 <= r.begin && r.begin <= r.end && r.end <= r.n && r.n <= blockSize, "reader-invariant-at-back-edge")
 	})
+	// lengths above 3 share the (memory, offset, length) checksum term; the harness recomputes the
+	// checksum over the same memory, so equality is still decided
+	sym.CrcBound(3)
 	wantFirst := sym.Bool("wantFirst")
 	err := r.nextChunk(wantFirst)
 	if err != nil {
